@@ -37,6 +37,10 @@ def ev_ops(ig, live):
 
 def run(ctx):
     fb = ctx.fb
+    # ---------------------------------------------------------------- Q1 the queue this component re-sizes keeps tickets and rounds in step
+    # (the execution queue's initialize() relies on ConcurrentBoundedQueue::reserve_and_clear; the clause is C01.R11, evaluated on the queue instantiation used here)
+    import C01 as _C01
+    _C01.geometry_rebase(ctx, "C16.Q1", fb)
     fns = fb.find(pred=lambda f: QREC.match(f.record or "") and f.has_cfg() and not f.lambda_)
     ctx.floor("C16.fns", len(fns), 20, "ConcurrentExecutionQueue member instances")
     n1 = n2 = n3 = 0
